@@ -129,6 +129,24 @@ func handleScan(db *NoKV.DB, req *pb.ScanRequest) (*pb.ScanResponse, error) {
 	resp := &pb.ScanResponse{}
 	iter.Rewind()
 	reader := percolator.NewReader(db)
+	// Keys in range that own a lock-column entry, ascending. The iterator walks the lock column
+	// before the write column, so a key locked by its first prewrite (no write record yet) is
+	// noticed too: its lock must block the scan exactly as it blocks a point get.
+	var lockKeys [][]byte
+	blockedBefore := func(bound []byte) (*pb.KeyError, error) {
+		for len(lockKeys) > 0 && (bound == nil || bytes.Compare(lockKeys[0], bound) < 0) {
+			key := lockKeys[0]
+			lockKeys = lockKeys[1:]
+			lock, err := reader.GetLock(key)
+			if err != nil {
+				return nil, err
+			}
+			if lock != nil && readTs >= lock.Ts {
+				return lockedError(key, lock), nil
+			}
+		}
+		return nil, nil
+	}
 	for iter.Valid() && len(resp.Kvs) < limit {
 		item := iter.Item()
 		if item == nil {
@@ -137,6 +155,13 @@ func handleScan(db *NoKV.DB, req *pb.ScanRequest) (*pb.ScanResponse, error) {
 		}
 		entry := item.Entry()
 		if entry == nil {
+			iter.Next()
+			continue
+		}
+		if entry.CF == kv.CFLock {
+			if cmp := bytes.Compare(entry.Key, startKey); cmp > 0 || (cmp == 0 && includeStart) || len(startKey) == 0 {
+				lockKeys = append(lockKeys, kv.SafeCopy(nil, entry.Key))
+			}
 			iter.Next()
 			continue
 		}
@@ -152,6 +177,12 @@ func handleScan(db *NoKV.DB, req *pb.ScanRequest) (*pb.ScanResponse, error) {
 				continue
 			}
 			started = true
+		}
+		if keyErr, err := blockedBefore(key); err != nil {
+			return nil, err
+		} else if keyErr != nil {
+			resp.Error = keyErr
+			break
 		}
 		lock, err := reader.GetLock(key)
 		if err != nil {
@@ -173,6 +204,13 @@ func handleScan(db *NoKV.DB, req *pb.ScanRequest) (*pb.ScanResponse, error) {
 				Version: readTs,
 			})
 		}
+	}
+	if resp.Error == nil && len(resp.Kvs) < limit {
+		keyErr, err := blockedBefore(nil)
+		if err != nil {
+			return nil, err
+		}
+		resp.Error = keyErr
 	}
 	return resp, nil
 }
